@@ -954,6 +954,13 @@ class _Fn:
                 elif isinstance(s.exc, ast.Name):
                     exc = s.exc.id if s.exc.id in self.eng.exc_bases or s.exc.id[:1].isupper() else (
                         self.cur_handler_exc[-1] if self.cur_handler_exc else "Exception")
+                    if exc == "Exception" and not self.cur_handler_exc:
+                        # `err = KeyError(…); raise err`: the class of the object that was built
+                        ds_ = [d_ for d_ in ast.walk(self.f.node) if isinstance(d_, ast.Assign) and len(d_.targets) == 1
+                               and isinstance(d_.targets[0], ast.Name) and d_.targets[0].id == s.exc.id]
+                        kinds_ = {d_.value.func.id for d_ in ds_ if isinstance(d_.value, ast.Call) and isinstance(d_.value.func, ast.Name) and d_.value.func.id[:1].isupper()}
+                        if ds_ and len(kinds_) == 1 and len(ds_) == len([d_ for d_ in ds_ if isinstance(d_.value, ast.Call)]):
+                            exc = kinds_.pop()
                 else:
                     exc = ast.unparse(s.exc)
             else:
